@@ -5,7 +5,7 @@ import os,sys,subprocess,json,time
 root=os.path.dirname(os.path.dirname(os.path.abspath(__file__)))
 tier=sys.argv[1] if len(sys.argv)>1 else 'quick'
 ids=sys.argv[2:] or sorted(d for d in os.listdir(root+'/seeded') if os.path.isdir(root+'/seeded/'+d))
-EXTRA={'C01-3':['C16'],'C04-3':['C06'],'C05-3':['C06'],'C03-2':['C06'],'C14-2':['C06'],'C15-1':['C02'],'C07-3':['C05'],'C02-2':['C05'],'C16-1':['C01'],'C05-2':['C07']}
+EXTRA={'C01-3':['C16'],'C04-3':['C06'],'C05-3':['C06'],'C03-2':['C06'],'C14-2':['C06'],'C15-1':['C02'],'C07-3':['C05'],'C02-2':['C05'],'C16-1':['C01'],'C05-2':['C07'],'C03-r3-2':['C06'],'C03-r3-3':['C04'],'C07-r3-3':['C03','C14'],'C04-r3-1':['C05'],'C13-r3-2':['C04','C06'],'C11-r3-3':['C12']}
 def clean():
     st=subprocess.run('git -C /repo status --porcelain --untracked-files=no',shell=True,capture_output=True,text=True).stdout.strip()
     return st==''
